@@ -253,17 +253,35 @@ bool Position::move_is_capture(Move move) const
 
 bool Position::move_gives_check(Move move) const
 {
+    const Square king_sq = piece_position(make_piece(!color(), KING));
+    const Bitboard king_bb = square_bb(king_sq);
+
+    // castling
+    if (castling(move) != NO_CASTLING)
+    {
+        Square old_king_sq = piece_position(make_piece(color(), KING));
+        Square old_rook_sq = make_square(color() == WHITE ? RANK_1 : RANK_8,
+                                        castling(move) & KING_CASTLING ? FILE_H : FILE_A);
+        Square my_king_sq = make_square(color() == WHITE ? RANK_1 : RANK_8,
+                                        castling(move) & KING_CASTLING ? FILE_G : FILE_C);
+        Square my_rook_sq = make_square(color() == WHITE ? RANK_1 : RANK_8,
+                                        castling(move) & KING_CASTLING ? FILE_F : FILE_D);
+
+        Bitboard blockers = pieces() ^ square_bb(old_king_sq) ^ square_bb(old_rook_sq) ^ square_bb(my_king_sq) ^ square_bb(my_rook_sq);
+        return slider_attack<ROOK>(my_rook_sq, blockers) & king_bb;
+    }
+
     const Square from_sq = from(move);
     const Square to_sq = to(move);
     const PieceKind moved_piece_kind = make_piece_kind(piece_at(from_sq));
-    const Square king_sq = piece_position(make_piece(!color(), KING));
+    const PieceKind checking_piece_kind =
+        promotion(move) != NO_PIECE_KIND ? promotion(move) : moved_piece_kind;
     const Bitboard from_bb = square_bb(from_sq);
     const Bitboard to_bb = square_bb(to_sq);
-    const Bitboard king_bb = square_bb(king_sq);
-    Bitboard blockers = pieces();
+    Bitboard blockers = pieces() ^ from_bb;
 
     // direct check
-    switch (moved_piece_kind)
+    switch (checking_piece_kind)
     {
         case PAWN:
             if (pawn_attacks(square_bb(to_sq), color()) & king_bb)
@@ -289,7 +307,7 @@ bool Position::move_gives_check(Move move) const
         default: assert(false);
     }
 
-    blockers = (blockers ^ from_bb) | to_bb;
+    blockers |= to_bb;
 
     // discovered check
     if (slider_attack<BISHOP>(king_sq, blockers) & pieces(color(), BISHOP, QUEEN))
@@ -306,22 +324,6 @@ bool Position::move_gives_check(Move move) const
         if (slider_attack<BISHOP>(king_sq, blockers) & pieces(color(), BISHOP, QUEEN))
             return true;
         if (slider_attack<ROOK>(king_sq, blockers) & pieces(color(), ROOK, QUEEN))
-            return true;
-    }
-
-    // castling
-    if (castling(move) != NO_CASTLING)
-    {
-        Square old_king_sq = piece_position(make_piece(color(), KING));
-        Square old_rook_sq = make_square(color() == WHITE ? RANK_1 : RANK_8,
-                                        castling(move) & KING_CASTLING ? FILE_H : FILE_A);
-        Square my_king_sq = make_square(color() == WHITE ? RANK_1 : RANK_8,
-                                        castling(move) & KING_CASTLING ? FILE_G : FILE_C);
-        Square my_rook_sq = make_square(color() == WHITE ? RANK_1 : RANK_8,
-                                        castling(move) & KING_CASTLING ? FILE_F : FILE_D);
-
-        blockers = pieces() ^ square_bb(old_king_sq) ^ square_bb(old_rook_sq) ^ square_bb(my_king_sq) ^ square_bb(my_rook_sq);
-        if (slider_attack<ROOK>(my_rook_sq, blockers) & king_bb)
             return true;
     }
 
